@@ -12,6 +12,7 @@ import (
 	"errors"
 	"fmt"
 	"io"
+	"os"
 	"net"
 	"strings"
 	"sync"
@@ -76,7 +77,7 @@ func vfRunCrashPoint(t *testing.T, spec *vfSpec, res *vfRes) {
 		reason := "vf-abort-reason-" + spec.ID
 		// which error the failing transport reports is an input: real transports return io.EOF, closed-pipe
 		// and net.ErrClosed as well as their own errors
-		injErr := []error{errVFInjected, io.EOF, io.ErrClosedPipe, net.ErrClosed}[vfHash(spec.Seed, 0xe44)%4]
+		injErr := []error{errVFInjected, io.EOF, io.ErrClosedPipe, net.ErrClosed, vfTimeoutErr{}}[vfHash(spec.Seed, 0xe44)%5]
 
 		doAction := func() {
 			defer close(actionDone)
@@ -172,16 +173,21 @@ func vfRunCrashPoint(t *testing.T, spec *vfSpec, res *vfRes) {
 
 		var w *vfWork
 		var lateDeadlineStream *Stream
+		var pollStreams []*Stream
 		farDeadline := 40 * time.Minute
 		parkTransferCallers := func() {
 			a := sim.getAssoc(side)
 			// reader without deadline on a stream nobody writes to
 			if st, err := a.OpenStream(500, PayloadTypeWebRTCBinary); err == nil {
-				ps.park(sim, "ReadSCTP", side, func() error {
-					_, _, err := st.ReadSCTP(make([]byte, 100))
+				// three readers on one stream: every one of them has to be released
+				for _, nm := range []string{"ReadSCTP", "ReadSCTP#2", "ReadSCTP#3"} {
+					ps.park(sim, nm, side, func() error {
+						_, _, err := st.ReadSCTP(make([]byte, 100))
 
-					return err
-				})
+						return err
+					})
+				}
+				pollStreams = append(pollStreams, st)
 			}
 			if st, err := a.OpenStream(501, PayloadTypeWebRTCBinary); err == nil {
 				_ = st.SetReadDeadline(time.Now().Add(farDeadline))
@@ -432,6 +438,29 @@ func vfRunCrashPoint(t *testing.T, spec *vfSpec, res *vfRes) {
 				_ = lateDeadlineStream.SetReadDeadline(time.Time{})
 			}
 			res.count("c09_late_deadline_cases", 1)
+			pollStreams = append(pollStreams, lateDeadlineStream)
+		}
+		// a reader that polls (arms a fresh read deadline, then reads) must keep seeing the terminal error, whatever
+		// its class (a transport time-out is a terminal error too): never the deadline, never a blocked read
+		for i, st := range pollStreams {
+			for round := 0; round < 2; round++ {
+				_ = st.SetReadDeadline(time.Now().Add(3 * time.Second))
+				rd := make(chan error, 1)
+				go func() {
+					_, _, err := st.ReadSCTP(make([]byte, 64))
+					rd <- err
+				}()
+				t0 := sim.net.now()
+				err := <-rd
+				if el := sim.net.now() - t0; el > 0 || errors.Is(err, ErrReadDeadlineExceeded) {
+					res.violate("C09", "poll-after-teardown/terminal-error-lost", "%s: after the association ended (%s), SetReadDeadline(+3 s) followed by ReadSCTP on stream #%d returned %v after %v instead of failing at once with the terminal error (round %d)", kind, action, i, err, el, round)
+				}
+				if errors.Is(err, os.ErrDeadlineExceeded) {
+					res.count("c09_poll_terminal_timeout_class", 1)
+				}
+				_ = st.SetReadDeadline(time.Time{})
+			}
+			res.count("c09_poll_after_teardown", 1)
 		}
 		// read-deadline goroutines legitimately live until their instant
 		time.Sleep(farDeadline + time.Minute)
